@@ -542,9 +542,9 @@ impl Backend for RlnBackend {
     }
     fn proof_obs(&self, i: usize, _leaves: &[Fr]) -> Result<Result<ProofObs, String>, Panicked> {
         guarded(|| {
-            let mut out = vec![];
+            let mut out = crate::gens::Sink::new();
             self.rln.get_proof(i, &mut out).map_err(estr)?;
-            let (els, bits) = codec_ref::dec_merkle_proof(&out).map_err(|e| format!("get_proof bytes do not follow the documented layout: {e}"))?;
+            let (els, bits) = codec_ref::dec_merkle_proof(&out.data).map_err(|e| format!("get_proof bytes do not follow the documented layout: {e}"))?;
             let mut elements = vec![];
             for e in &els {
                 if e >= crate::models::field::p() {
@@ -563,21 +563,21 @@ impl Backend for RlnBackend {
         let depth = self.depth;
         let rln = &mut self.rln;
         Some(match op {
-            ROp::Set(i, v) => guarded(|| rln.set_leaf(*i, Cursor::new(fr_to_le32(v).to_vec())).map_err(estr)),
+            ROp::Set(i, v) => guarded(|| rln.set_leaf(*i, crate::gens::rd(&fr_to_le32(v))).map_err(estr)),
             ROp::Delete(i) => guarded(|| rln.delete_leaf(*i).map_err(estr)),
-            ROp::Append(v) => guarded(|| rln.set_next_leaf(Cursor::new(fr_to_le32(v).to_vec())).map_err(estr)),
-            ROp::SetRange(s, v) => guarded(|| rln.set_leaves_from(*s, Cursor::new(enc_leaves(v))).map_err(estr)),
+            ROp::Append(v) => guarded(|| rln.set_next_leaf(crate::gens::rd(&fr_to_le32(v))).map_err(estr)),
+            ROp::SetRange(s, v) => guarded(|| rln.set_leaves_from(*s, crate::gens::rd(&enc_leaves(v))).map_err(estr)),
             ROp::Batch(s, v, r) => {
                 if r.iter().any(|x| *x > 255) {
                     return None; // removal indices travel as bytes in this API
                 }
                 let idx: Vec<u8> = r.iter().map(|x| *x as u8).collect();
                 guarded(|| {
-                    rln.atomic_operation(*s, Cursor::new(enc_leaves(v)), Cursor::new(codec_ref::enc_vec_u8(&idx)))
+                    rln.atomic_operation(*s, crate::gens::rd(&enc_leaves(v)), crate::gens::rd(&codec_ref::enc_vec_u8(&idx)))
                         .map_err(estr)
                 })
             }
-            ROp::Init(v) => guarded(|| rln.init_tree_with_leaves(Cursor::new(enc_leaves(v))).map_err(estr)),
+            ROp::Init(v) => guarded(|| rln.init_tree_with_leaves(crate::gens::rd(&enc_leaves(v))).map_err(estr)),
             ROp::Reset => guarded(|| rln.set_tree(depth).map_err(estr)),
             ROp::SetMetadata(b) => guarded(|| rln.set_metadata(b).map_err(estr)),
             ROp::Flush => guarded(|| rln.flush().map_err(estr)),
@@ -585,17 +585,17 @@ impl Backend for RlnBackend {
         })
     }
     fn root(&self) -> Fr {
-        let mut out = vec![];
+        let mut out = crate::gens::Sink::new();
         self.rln.get_root(&mut out).expect("get_root");
-        dec_fr32(&out).expect("root bytes")
+        dec_fr32(&out.data).expect("root bytes")
     }
     fn leaves_set(&mut self) -> usize {
         self.rln.leaves_set()
     }
     fn get(&self, i: usize) -> Result<Fr, String> {
-        let mut out = vec![];
+        let mut out = crate::gens::Sink::new();
         self.rln.get_leaf(i, &mut out).map_err(estr)?;
-        dec_fr32(&out)
+        dec_fr32(&out.data)
     }
     fn subtree_root(&self, level: usize, i: usize) -> Result<Fr, String> {
         let mut out = vec![];
@@ -603,9 +603,9 @@ impl Backend for RlnBackend {
         dec_fr32(&out)
     }
     fn empty_list(&self) -> Vec<usize> {
-        let mut out = vec![];
+        let mut out = crate::gens::Sink::new();
         self.rln.get_empty_leaves_indices(&mut out).expect("get_empty_leaves_indices");
-        codec_ref::dec_vec_usize(&out).expect("index list layout").into_iter().map(|x| x as usize).collect()
+        codec_ref::dec_vec_usize(&out.data).expect("index list layout").into_iter().map(|x| x as usize).collect()
     }
     fn metadata(&self) -> Result<Vec<u8>, String> {
         let mut out = vec![];
